@@ -72,6 +72,13 @@ def build_pool(chk, quick):
     open(p, 'wb').write(b'\x00\x01\x02\x03' + rng.randbytes(100))
     pool.append(p)
     failing = pool[-3:]
+    # a supported release with a non-numeric build token: controller and definitions resolve (and the controller subscribes), then the packet
+    # table lookup refuses the version -- a parse that fails after a player was half built
+    for rel in ('0,10,7', '13,2,0'):
+        p = os.path.join(d, 'half-built-%s.wowsreplay' % rel.replace(',', '_'))
+        open(p, 'wb').write(container.write_container('wowsreplay', json.dumps({'clientVersionFromXml': rel + ',cn'}).encode(), [], rng.randbytes(200)))
+        pool.append(p)
+        failing.append(p)
     # a real recording whose stream ends inside a packet header: play() is left by an exception in both modes, after real packets were processed
     from replay_unpack.replay_reader import ReplayReader
     src = pool[0]
